@@ -47,3 +47,461 @@ class TiledStride_canonicalize:
 
     def canary(sh, a, ret):
         check("canary: depth never shrinks", len(ret.strides) == len(a[0].strides))
+
+
+# =====================================================================================
+# more of snaxc/ir/tsl
+# =====================================================================================
+def mk_tsl(sym, rank, depth, dyn="static", bounds=None, offset="sym", pfx=""):
+    """TSL with symbolic steps; bounds symbolic (bounds=None) or the given concrete tuple per level"""
+    ts = []
+    for d in range(rank):
+        strides = []
+        for k in range(depth):
+            step = sym.int(f"{pfx}s{d}_{k}", 1)
+            bound = sym.int(f"{pfx}b{d}_{k}", 1) if bounds is None else bounds[d][k]
+            if k == 0 and dyn in ("dynbound", "dynboth"):
+                bound = None
+            if k == 0 and dyn == "dynboth":
+                step = None
+            strides.append(Stride(step, bound))
+        ts.append(TiledStride(strides))
+    off = sym.int(f"{pfx}off", 0) if offset == "sym" else offset
+    return TiledStridedLayout(ts, offset=off)
+
+
+def digits(sym, tsl, pfx="t"):
+    """a symbolic digit vector t[d][k] in [0, bound_{d,k}) (witness variables of the address function)"""
+    return [[sym.int(f"{pfx}{d}_{k}", 0) for k in range(len(ts.strides))] for d, ts in enumerate(tsl.tstrides)]
+
+
+def digits_in_range(tsl, t):
+    return all(0 <= t[d][k] and t[d][k] < s.bound for d, ts in enumerate(tsl.tstrides) for k, s in enumerate(ts.strides))
+
+
+def addr(tsl, t):
+    """addr_T(t) = offset + sum t[d][k] * step[d][k]"""
+    return tsl.offset + sum(t[d][k] * s.step for d, ts in enumerate(tsl.tstrides) for k, s in enumerate(ts.strides))
+
+
+def logical_index(tsl, t):
+    """idx_d = sum_k t[d][k] * prod_{j>k} bound[d][j]   (written as a sum of products)"""
+    idx = []
+    for d, ts in enumerate(tsl.tstrides):
+        acc = 0
+        for k in range(len(ts.strides)):
+            term = t[d][k]
+            for j in range(k + 1, len(ts.strides)):
+                term = term * ts.strides[j].bound
+            acc = acc + term
+        idx.append(acc)
+    return idx
+
+
+@contract
+class TiledStride_from_stride:
+    target = "snaxc.ir.tsl.tiled_stride.TiledStride.from_stride"
+    shapes = [dict(depth=d, none=n) for d in range(1, 5) for n in ("no", "outer", "stride")]
+    quick = lambda sh: sh["depth"] <= 3
+    total = True
+
+    def args(sh, sym):
+        tb = [sym.int(f"b{k}", 1) for k in range(sh["depth"])]
+        if sh["none"] == "outer":
+            tb[0] = None
+        s = None if sh["none"] == "stride" else sym.int("s")
+        return [s, tb]
+
+    def requires(sh, a):
+        return a[0] is None or a[0] >= 1
+
+    def ensures(sh, a, ret):
+        s, tb = a
+        n = sh["depth"]
+        check("one level per tile bound, bounds kept", [x.bound for x in ret.strides] == tb)
+        check("innermost step is the simple stride", ret.strides[n - 1].step == s or (s is None and ret.strides[n - 1].step is None))
+        for k in range(n - 1):
+            inner = ret.strides[k + 1]
+            if inner.step is None or tb[k + 1] is None:
+                check(f"level {k}: dynamic when a factor is dynamic", ret.strides[k].step is None)
+            else:
+                check(f"level {k}: step = inner step * inner bound", ret.strides[k].step == inner.step * tb[k + 1])
+
+    def canary(sh, a, ret):
+        check("canary: all steps equal", all(x.step == ret.strides[0].step for x in ret.strides) and sh["depth"] == 1)
+
+
+@contract
+class TSL_from_strides:
+    target = "snaxc.ir.tsl.tiled_strided_layout.TiledStridedLayout.from_strides"
+    shapes = [dict(rank=r, depth=d) for r in (1, 2, 3) for d in (1, 2, 3)]
+    quick = lambda sh: sh["rank"] <= 2
+    total = True
+
+    def args(sh, sym):
+        strides = [sym.int(f"S{d}", 1) for d in range(sh["rank"])]
+        tb = [[sym.int(f"b{d}_{k}", 1) for k in range(sh["depth"])] for d in range(sh["rank"])]
+        # witness digits: any digit vector addresses offset + sum_d stride_d * idx_d  (what MLIR strides mean)
+        t = [[sym.int(f"t{d}_{k}", 0) for k in range(sh["depth"])] for d in range(sh["rank"])]
+        return [strides, tb, sym.int("off", 0), t]
+
+    def run(sh, a):
+        return TiledStridedLayout.from_strides(a[0], a[1], a[2])
+
+    def ensures(sh, a, ret):
+        strides, tb, off, t = a
+        idx = logical_index(ret, t)
+        check("tile bounds kept", ret.tile_bounds() == tb)
+        check("offset kept", ret.offset == off)
+        check("addr(t) == offset + sum stride_d * idx_d(t)", addr(ret, t) == off + sum(strides[d] * idx[d] for d in range(sh["rank"])))
+
+    def canary(sh, a, ret):
+        check("canary: offset dropped", ret.offset == 0)
+
+
+@contract
+class TSL_canonicalize:
+    target = "snaxc.ir.tsl.tiled_strided_layout.TiledStridedLayout.canonicalize"
+    shapes = [dict(rank=r, depth=d, dyn=v) for r in (1, 2) for d in (1, 2, 3) for v in DYN if not (r == 2 and d == 3 and v != "static")]
+    quick = lambda sh: sh["rank"] * sh["depth"] <= 4
+    total = True
+
+    def args(sh, sym):
+        return [mk_tsl(sym, sh["rank"], sh["depth"], sh["dyn"])]
+
+    def ensures(sh, a, ret):
+        check("rank kept", len(ret.tstrides) == sh["rank"])
+        for d in range(sh["rank"]):
+            check(f"dim {d}: same index->address function (coalesces)", coalesces(levels(a[0].tstrides[d]), levels(ret.tstrides[d])))
+        check("offset kept", ret.offset == a[0].offset)
+        check("result type", isinstance(ret, TiledStridedLayout))
+
+    def canary(sh, a, ret):
+        check("canary: canonicalize is the identity", ret.tile_bounds() == a[0].tile_bounds())
+
+
+@contract
+class TSL_structure_queries:
+    """tile_bounds / equal_tile_bounds / dimension / get_stride / __iter__ order / is_dynamic: definitional"""
+    target = "snaxc.ir.tsl.tiled_strided_layout.TiledStridedLayout.tile_bounds"
+    shapes = [dict(rank=r, depth=d, dyn=v) for r in (1, 2, 3) for d in (1, 2) for v in DYN]
+    quick = lambda sh: sh["rank"] <= 2
+    total = True
+
+    def args(sh, sym):
+        return [mk_tsl(sym, sh["rank"], sh["depth"], sh["dyn"]), mk_tsl(sym, sh["rank"], sh["depth"], sh["dyn"], pfx="o")]
+
+    def run(sh, a):
+        x, o = a
+        return dict(tb=x.tile_bounds(), etb=x.equal_tile_bounds(o), dim=x.dimension(), it=list(x), dyn=x.is_dynamic(),
+                    gs=[[x.get_stride(d, k) for k in range(sh["depth"])] for d in range(sh["rank"])],
+                    depth=[ts.depth() for ts in x.tstrides], none=x.tstrides[0].get_stride(sh["depth"]))
+
+    def ensures(sh, a, ret):
+        x, o = a
+        R, D = sh["rank"], sh["depth"]
+        check("tile_bounds", ret["tb"] == [[x.tstrides[d].strides[k].bound for k in range(D)] for d in range(R)])
+        check("equal_tile_bounds <=> all bounds equal",
+              ret["etb"] == all(x.tstrides[d].strides[k].bound == o.tstrides[d].strides[k].bound for d in range(R) for k in range(D)))
+        check("dimension", ret["dim"] == R)
+        check("iteration order is (dim, depth) lexicographic",
+              [(d, k) for d, k, _ in ret["it"]] == [(d, k) for d in range(R) for k in range(D)]
+              and all(s is x.tstrides[d].strides[k] for d, k, s in ret["it"]))
+        check("get_stride", all(ret["gs"][d][k] is x.tstrides[d].strides[k] for d in range(R) for k in range(D)))
+        check("is_dynamic", ret["dyn"] == (sh["dyn"] != "static"))
+        check("depth", ret["depth"] == [D] * R)
+        check("TiledStride.get_stride out of range is None", ret["none"] is None)
+
+    def canary(sh, a, ret):
+        check("canary: layouts always have equal tile bounds", ret["etb"])
+
+
+BOUND_SETS = [(1, 1), (2, 1), (1, 3), (2, 2), (3, 2), (2, 4)]
+
+
+@contract
+class TSL_all_values:
+    """all_values enumerates addr_T(t) - offset in row-major digit order (bounds concrete, steps symbolic)"""
+    target = "snaxc.ir.tsl.tiled_strided_layout.TiledStridedLayout.all_values"
+    shapes = ([dict(rank=1, depth=1, bounds=[[b]]) for b in (1, 2, 5)]
+              + [dict(rank=1, depth=2, bounds=[list(bs)]) for bs in BOUND_SETS]
+              + [dict(rank=2, depth=1, bounds=[[a], [b]]) for a, b in BOUND_SETS]
+              + [dict(rank=2, depth=2, bounds=[list(x), list(y)]) for x in BOUND_SETS[1:4] for y in BOUND_SETS[2:5]]
+              + [dict(rank=1, depth=3, bounds=[[2, 1, 3]]), dict(rank=1, depth=3, bounds=[[2, 3, 2]]), dict(rank=3, depth=1, bounds=[[2], [1], [3]])])
+    quick = lambda sh: sh["rank"] * sh["depth"] <= 2 or sh["bounds"] in ([[2, 2], [1, 3]], [[2, 3, 2]])
+    total = True
+
+    def args(sh, sym):
+        return [mk_tsl(sym, sh["rank"], sh["depth"], bounds=sh["bounds"])]
+
+    def ensures(sh, a, ret):
+        tsl = a[0]
+        vals = ret.tolist()
+        lv = [(d, k, s) for d, k, s in tsl]
+        total_n = 1
+        for _, _, s in lv:
+            total_n = total_n * s.bound
+        check("one value per digit vector", len(vals) == total_n)
+        # row-major position of digit vector t, outermost = first (dim, depth)
+        pos = 0
+        ok = True
+        for pos in range(total_n):
+            rem = pos
+            acc = 0
+            for d, k, s in reversed(lv):
+                acc = acc + (rem % s.bound) * s.step
+                rem = rem // s.bound
+            ok = ok and vals[pos] == acc
+        check("value at row-major position of t is addr_T(t) - offset", ok)
+
+    def canary(sh, a, ret):
+        check("canary: all_values is sorted ascending", all(ret.tolist()[i] <= ret.tolist()[i + 1] for i in range(len(ret.tolist()) - 1)) and len(ret.tolist()) > 3)
+
+
+@contract
+class Stride_all_values:
+    target = "snaxc.ir.tsl.stride.Stride.all_values"
+    shapes = [dict(bound=b) for b in (1, 2, 3, 7)]
+    total = True
+
+    def args(sh, sym):
+        return [Stride(sym.int("s", 1), sh["bound"])]
+
+    def ensures(sh, a, ret):
+        check("all_values == [i*step for i < bound]", ret == [i * a[0].step for i in range(sh["bound"])])
+
+    def canary(sh, a, ret):
+        check("canary: values are all zero", all(v == 0 for v in ret) and sh["bound"] == 1)
+
+
+@contract
+class TSL_largest_common_contiguous_block:
+    target = "snaxc.ir.tsl.tiled_strided_layout.TiledStridedLayout.largest_common_contiguous_block"
+    shapes = [dict(rank=r, depth=d, dyn=v) for r, d in ((1, 1), (1, 2), (2, 1), (2, 2)) for v in ("static", "dynbound") if not (r == 2 and d == 2 and v != "static")]
+    quick = lambda sh: sh["rank"] * sh["depth"] <= 2
+    total = True
+
+    def args(sh, sym):
+        return [mk_tsl(sym, sh["rank"], sh["depth"], sh["dyn"], pfx="x"), mk_tsl(sym, sh["rank"], sh["depth"], sh["dyn"], pfx="y"), sym.int("s0", 1)]
+
+    def ensures(sh, a, ret):
+        x, y, s0 = a
+        check("non-empty", len(ret) >= 1)
+        check("starts at the starting stride", ret[0].step == s0)
+        for i in range(len(ret) - 1):
+            check(f"block level {i}: static and contiguous chain", ret[i].bound is not None and ret[i].step is not None
+                  and ret[i + 1].step == ret[i].step * ret[i].bound)
+        if not (len(ret) == 1 and ret[0].bound == 1 and not any(ret[0] is s for _, _, s in x)):
+            # every returned Stride is a stride object of self, equal (step, bound) to other's stride at the same position
+            for r in ret:
+                pos = [(d, k) for d, k, s in x if s is r]
+                check("returned stride is a level of self", len(pos) == 1)
+                d, k = pos[0]
+                o = y.tstrides[d].strides[k]
+                check("same step and bound at that (dim, depth) in other", (o.step == r.step or (o.step is None and r.step is None))
+                      and (o.bound == r.bound or (o.bound is None and r.bound is None)))
+            check("distinct levels", all(ret[i] is not ret[j] for i in range(len(ret)) for j in range(i)))
+        else:
+            check("default block is a single element", ret[0].step == s0 and ret[0].bound == 1)
+
+    def canary(sh, a, ret):
+        check("canary: block is always a single element", len(ret) == 1 and ret[0].bound == 1)
+
+
+# =====================================================================================
+# snaxc/dialects/tsl.py: the attribute's views of the layout
+# =====================================================================================
+from pyvc.api import den, implies, ite, mk_memref_value  # noqa: E402
+from xdsl.dialects.builtin import IndexType, IntegerType, MemRefType, StridedLayoutAttr  # noqa: E402
+
+from snaxc.dialects.tsl import TiledStridedLayoutAttr  # noqa: E402
+
+D3_BOUNDS = [(2, 3, 2), (1, 2, 3), (3, 1, 2), (2, 2, 1), (4, 2, 2), (2, 5, 3), (8, 2, 4), (3, 4, 5)]
+
+
+@contract
+class TSLAttr_get_affine_map:
+    """the affine map used for stream address generation equals addr_T, INCLUDING the offset (witness form:
+    digits are the quantified variables, the logical index is computed from them)"""
+    target = "snaxc.dialects.tsl.TiledStridedLayoutAttr.get_affine_map"
+    shapes = ([dict(rank=r, depth=d, bounds=None, offset=o) for r in (1, 2, 3) for d in (1, 2) for o in ("zero", "sym") if r * d <= 4]
+              + [dict(rank=1, depth=3, bounds=[list(b)], offset="zero") for b in D3_BOUNDS]
+              + [dict(rank=2, depth=3, bounds=[list(D3_BOUNDS[i]), list(D3_BOUNDS[i + 1])], offset="zero") for i in (0, 2, 4)])
+    quick = lambda sh: (sh["bounds"] is None and sh["rank"] <= 2) or (sh["rank"] == 1 and sh["bounds"] in ([[2, 3, 2]], [[4, 2, 2]], [[2, 5, 3]]))
+    total = True
+
+    def args(sh, sym):
+        tsl = mk_tsl(sym, sh["rank"], sh["depth"], bounds=sh["bounds"], offset=0 if sh["offset"] == "zero" else "sym")
+        return [TiledStridedLayoutAttr(tsl), digits(sym, tsl)]
+
+    def requires(sh, a):
+        return digits_in_range(a[0].data, a[1])
+
+    def run(sh, a):
+        return a[0].get_affine_map()
+
+    def ensures(sh, a, ret):
+        tsl, t = a[0].data, a[1]
+        idx = logical_index(tsl, t)
+        check("one result, rank dims", len(ret.results) == 1 and ret.num_dims == sh["rank"] and ret.num_symbols == 0)
+        check("eval(map, idx(t)) == addr_T(t) (offset included)", ret.eval(idx, [])[0] == addr(tsl, t))
+
+    def canary(sh, a, ret):
+        check("canary: map is zero", ret.eval(logical_index(a[0].data, a[1]), [])[0] == 0)
+
+
+def mk_memref_for(sym, tsl, el_bits, strided=False):
+    """a memref value whose type carries `tsl` (or a strided layout) with run-time shape N_d; dims with a dynamic
+    outer bound are dynamic in the type"""
+    rank = len(tsl.tstrides)
+    shape, rt_shape = [], []
+    for d in range(rank):
+        inner = 1
+        for s in tsl.tstrides[d].strides[1:]:
+            inner = inner * s.bound
+        outer = tsl.tstrides[d].strides[0].bound
+        if outer is None:
+            n = sym.int(f"N{d}", 1)
+            shape.append(-1)
+            rt_shape.append(n)
+        else:
+            shape.append(-1 if not isinstance(outer * inner, int) else outer * inner)
+            rt_shape.append(outer * inner)
+    layout = TiledStridedLayoutAttr(tsl)
+    rt_strides = None
+    if strided:
+        rt_strides = [sym.int(f"RS{d}", 1) for d in range(rank)]
+        layout = StridedLayoutAttr([None if tsl.tstrides[d].strides[-1].step is None else 1 for d in range(rank)], 0)
+    ty = MemRefType(IntegerType(el_bits), shape, layout)
+    return mk_memref_value(ty, rt_shape, rt_strides, 0, sym.int("ptr", 0))
+
+
+def inner_product(tsl, d):
+    r = 1
+    for s in tsl.tstrides[d].strides[1:]:
+        r = r * s.bound
+    return r
+
+
+@contract
+class TSLAttr_get_bound_ops:
+    target = "snaxc.dialects.tsl.TiledStridedLayoutAttr.get_bound_ops"
+    shapes = [dict(rank=r, depth=d, dyn=v, via=via) for r in (1, 2, 3) for d in (1, 2, 3) for v in DYN for via in ("memref", "shapes") if r * d <= 6]
+    quick = lambda sh: sh["rank"] * sh["depth"] <= 4
+    total = True
+    compare_ret = False  # returns IR objects: the differential compares the evaluated clauses only
+
+    def args(sh, sym):
+        tsl = mk_tsl(sym, sh["rank"], sh["depth"], sh["dyn"])
+        m = mk_memref_for(sym, tsl, 32)
+        return [TiledStridedLayoutAttr(tsl), m]
+
+    def run(sh, a):
+        attr, m = a
+        if sh["via"] == "memref":
+            return attr.get_bound_ops(m)
+        from xdsl.dialects.arith import ConstantOp
+        from xdsl.dialects.memref import DimOp
+        shapes = []
+        for d in range(sh["rank"]):
+            shapes.append(DimOp.from_source_and_index(m, ConstantOp.from_int_and_width(d, IndexType())))
+        return attr.get_bound_ops(shapes)
+
+    def ensures(sh, a, ret):
+        attr, m = a
+        tsl = attr.data
+        ops, mapping = ret
+        check("one bound op per (dim, depth)", sorted(mapping.keys()) == [(d, k) for d in range(sh["rank"]) for k in range(sh["depth"])])
+        check("every mapped op is in the returned op list", all(any(o is mapping[key] for o in ops) for key in mapping))
+        for d in range(sh["rank"]):
+            for k in range(sh["depth"]):
+                s = tsl.tstrides[d].strides[k]
+                if s.bound is not None:
+                    check(f"den(bound_op[{d},{k}]) == static bound", den(mapping[(d, k)]) == s.bound)
+                else:
+                    n = den_shape(m, d)
+                    check(f"den(bound_op[{d},{k}]) == shape div inner tile product", den(mapping[(d, k)]) == n // inner_product(tsl, d))
+
+    def canary(sh, a, ret):
+        check("canary: all bound ops denote 1", all(den(o) == 1 for o in ret[1].values()))
+
+
+def den_shape(m, d):
+    from pyvc.api import rt_shape
+    return rt_shape(m, d)
+
+
+@contract
+class TSLAttr_get_step_ops:
+    target = "snaxc.dialects.tsl.TiledStridedLayoutAttr.get_step_ops"
+    shapes = ([dict(rank=r, depth=d, dyn=v, bits=b, in_bytes=ib, strided=False) for r in (1, 2, 3) for d in (1, 2) for v in DYN
+               for b, ib in ((32, True), (8, False), (64, True)) if r * d <= 4]
+              + [dict(rank=r, depth=1, dyn="dynboth", bits=16, in_bytes=True, strided=True) for r in (1, 2)])
+    quick = lambda sh: sh["rank"] <= 2 and sh["bits"] != 64
+    total = True
+    compare_ret = False
+
+    def args(sh, sym):
+        tsl = mk_tsl(sym, sh["rank"], sh["depth"], sh["dyn"])
+        m = mk_memref_for(sym, tsl, sh["bits"], sh["strided"])
+        return [TiledStridedLayoutAttr(tsl), m]
+
+    def run(sh, a):
+        attr, m = a
+        _, bound_ops = attr.get_bound_ops(m)
+        return (bound_ops, attr.get_step_ops(bound_ops, m, sh["in_bytes"]))
+
+    def ensures(sh, a, ret):
+        attr, m = a
+        tsl = attr.data
+        bound_ops, (ops, mapping) = ret
+        R, D = sh["rank"], sh["depth"]
+        el = sh["bits"] // 8 if sh["in_bytes"] else 1
+        check("one step op per (dim, depth)", sorted(mapping.keys()) == [(d, k) for d in range(R) for k in range(D)])
+        check("every mapped op is in the returned op list (def before use)", all(any(o is mapping[key] for o in ops) for key in mapping))
+        # static steps: exactly step * element bytes
+        for d in range(R):
+            for k in range(D):
+                s = tsl.tstrides[d].strides[k]
+                if s.step is not None:
+                    check(f"den(step_op[{d},{k}]) == step * el_bytes", den(mapping[(d, k)]) == s.step * el)
+        if sh["dyn"] == "dynboth" and not sh["strided"]:
+            # dynamic steps follow the documented contiguity rule: start from (largest static step * its bound),
+            # then right-to-left each dynamic level is the previous one times its bound
+            best = None
+            bestv = 0
+            for d, k, s in tsl:
+                if s.step is not None:
+                    pass
+            statics = [(d, k, s.step) for d, k, s in tsl if s.step is not None]
+            if len(statics) == 0:
+                start = den(bound_ops[(R - 1, D - 1)]) * 0
+            else:
+                # the code takes the first maximum in iteration order
+                cand = statics[0]
+                for x in statics[1:]:
+                    cand = ite(x[2] > cand[2], x, cand)
+                start = None
+            prev = None
+            for d in reversed(range(R)):
+                cur = den(mapping[(d, 0)])
+                if prev is not None:
+                    check(f"dynamic step of dim {d} = dynamic step of dim {d + 1} * its (dynamic) bound", cur == prev[0] * prev[1])
+                else:
+                    if len(statics) == 0:
+                        check("all-dynamic layout: innermost dynamic step is 0 * bound (degenerate)", cur == 0)
+                    else:
+                        check("first dynamic step = some static step * its bound * el_bytes, and it is the maximal static step",
+                              any(cur == x[2] * el * den(bound_ops[(x[0], x[1])]) and all(x[2] >= y[2] for y in statics) for x in statics))
+                prev = (cur, den(bound_ops[(d, 0)]))
+        if sh["strided"]:
+            for d in range(R):
+                check(f"strided memref: dynamic step {d} is the run-time stride in bytes", den(mapping[(d, 0)]) == rt_stride_of(m, d) * (sh["bits"] // 8))
+
+    def canary(sh, a, ret):
+        check("canary: steps ignore the element size", all(den(o) == 1 for o in ret[1][1].values()))
+
+
+def rt_stride_of(m, d):
+    from pyvc.api import rt_stride
+    return rt_stride(m, d)
